@@ -18,7 +18,7 @@ func init() {
 	core.Register(&core.Prop{
 		ID:    "C12",
 		Level: "exploration",
-		Rule: "PRNG programs interleaving assign, capture, for/tablerow (shadowing outer names and forloop), if/case and include, with a {% vprobe %} tag after every construct that dumps the per-render variables through render.Context.Get; each dump is compared with the environment the reference model tracks (absent == nil). Plus the capture equivalence F == {% capture v %}F{% endcapture %}{{ v }} over ALL fragments of the general generator (every tag, trim markers, failing fragments: both sides must fail). Non-trivial = the program assigns or captures at least once, or contains a loop; distinct = distinct (template, bindings).",
+		Rule: "PRNG programs interleaving assign, capture, for/tablerow (shadowing outer names and forloop), if/case and include, with a {% vprobe %} tag after every construct that dumps the per-render variables through render.Context.Get; each dump is compared with the environment the reference model tracks (absent == nil). Plus the capture equivalence F == {% capture v %}F{% endcapture %}{{ v }} over ALL fragments of the general generator (every tag, trim markers, failing fragments: both sides must fail). Plus targeted families (kept loop items and kept loop records: a variable given a loop item or forloop itself keeps the value of that iteration through later iterations, inner loops and the end of the loop, read field by field). Non-trivial = the program assigns or captures at least once, or contains a loop; distinct = distinct (template, bindings).",
 		Exhaustive: func(string) bool { return false },
 		Assumptions: []string{
 			"the probe reads variables with Context.Get, the documented way for a tag to read the current lexical environment",
@@ -376,6 +376,31 @@ func runC12(c *core.Ctx) {
 			expectOut(c, e, src, map[string]any{"coll": coll}, want, "kept-loop-item", "a loop item bound with assign holds exactly that item for the rest of the render (later iterations must not change it)", map[string]any{"collection": name})
 			c.Obs("kept_loop_item_cases", 1)
 			c.Distinct("kept", name)
+		}
+	}
+	// ---- the loop record kept with assign is the record of that iteration for good: later iterations, inner loops and the end of
+	// the loop move forloop on, not the variable that was given its value (read field by field through the expression language)
+	if c.Shard == 9%c.NShards && c.Begin("kept loop records") {
+		rec := "{% if f %}[{{ f.index }},{{ f.index0 }},{{ f.rindex }},{{ f.rindex0 }},{{ f.first }},{{ f.last }},{{ f.length }}]{% endif %}"
+		for n := 1; n <= 5; n++ {
+			items := make([]any, n)
+			for i := range items {
+				items[i] = "v" + itoa(i)
+			}
+			for k := 1; k <= n; k++ {
+				want1 := "[" + itoa(k) + "," + itoa(k-1) + "," + itoa(n-k+1) + "," + itoa(n-k) + "," + map[bool]string{true: "true", false: "false"}[k == 1] + "," + map[bool]string{true: "true", false: "false"}[k == n] + "," + itoa(n) + "]"
+				keep := "{% if forloop.index == " + itoa(k) + " %}{% assign f = forloop %}{% endif %}"
+				flat := "{% for x in a %}" + keep + rec + "{% endfor %}|" + rec
+				expectOut(c, e, flat, map[string]any{"a": items}, strings.Repeat(want1, n-k+1)+"|"+want1, "kept-loop-record", "a variable given forloop with assign holds exactly the record of that iteration for the rest of the render", map[string]any{"length": n, "assigned_in_iteration": k})
+				nested := "{% for x in a %}" + keep + "{% for y in a limit: 2 %}" + rec + "{% endfor %}{% endfor %}|{% for z in a reversed %}" + rec + "{% endfor %}"
+				inner := n
+				if inner > 2 {
+					inner = 2
+				}
+				expectOut(c, e, nested, map[string]any{"a": items}, strings.Repeat(want1, (n-k+1)*inner)+"|"+strings.Repeat(want1, n), "kept-loop-record|inner-loops", "a variable given forloop with assign holds exactly the record of that iteration, also inside and after other loops", map[string]any{"length": n, "assigned_in_iteration": k})
+				c.Obs("kept_loop_record_cases", 2)
+				c.Distinct("keptrec", itoa(n), itoa(k))
+			}
 		}
 	}
 	// ---- a variable may be called what it likes: words that mean something elsewhere in Liquid (filter names, loop
